@@ -19,7 +19,9 @@
      deflvl   the package's current default level (lvlCurrent)
      deflog   which logger is the package default
      flags    global flag set
-     treat, errdev   level registry tables that matter for gating and routing               *)
+     treat, errdev   level registry tables that matter for gating and routing
+     regd     custom level values registered so far (RegisterLevel refuses a second registration)
+     vrb      the process-wide verbose switch of hedzr/is (set from outside the library)    *)
 EXTENDS Levels, TLC, SequencesExt, FiniteSetsExt
 
 CONSTANTS
@@ -32,6 +34,8 @@ CONSTANTS
     InitLevel,       \* lvlCurrent at process start: Debug under go test, Warn in production
     InitTreat,       \* treated-as table at start (factory table plus levels registered by the driver)
     InitErrDev,      \* error-device set at start
+    InitRegd,        \* custom level values registered by the driver before the behaviour starts
+    RegCalls,        \* sequence of RegisterLevel calls [v, t (treated-as, -1: none), e (error device), clash (title of a built-in level)]
     WLevels,         \* severities for which per-level writers are explored
     WantsLevel,      \* writers that ask to be told the severity before each Write (LevelSettable)
     FailSets,        \* sequence of fault assignments explored by LogF: sets of <<phase, writer, occurrence>>
@@ -75,7 +79,7 @@ InitState ==
      cfg |-> <<DefaultCfg(FALSE, TRUE, InitLevel)>>,
      dbg |-> FALSE, deflvl |-> InitLevel, deflog |-> 1, attrsR |-> FALSE,
      flags |-> InitFlags, savedf |-> <<>>, savedl |-> <<>>,
-     treat |-> InitTreat, errdev |-> InitErrDev]
+     treat |-> InitTreat, errdev |-> InitErrDev, regd |-> InitRegd, vrb |-> FALSE]
 
 Live(s) == 1..s.n
 
@@ -183,6 +187,9 @@ Guard(s, e) ==
       [] e.op = "LogM" -> e.l \in Live(s)          \* a record with context CtxVals[e.a] and call attributes CallArgs[e.b]
       [] e.op = "PkgSkip" -> e.k \in {"SetSkip", "WithSkip"}   \* slog.SetSkip(a) / slog.WithSkip(a): the default logger's twins
       [] e.op = "DbgMode" -> TRUE                  \* the process-wide debug mode set from outside the library (hedzr/is)
+      [] e.op = "VrbMode" -> TRUE                  \* the process-wide verbose switch set from outside the library (hedzr/is)
+      \* slog.RegisterLevel(v, title, options): RegCalls[e.a]
+      [] e.op = "Register" -> e.a \in DOMAIN RegCalls
       [] e.op = "SetAttrsR" -> TRUE                \* the inherit-attributes flag (LattrsR) on (e.a = 1) / off
       \* global flags: e.k in SetFlags AddFlags RemoveFlags ResetFlags SaveFlagsAndMod(add e.a, remove e.b)
       \* RestoreFlags (call the e.a-th restore function obtained so far; any of them, any number of times)
@@ -198,6 +205,10 @@ Guard(s, e) ==
       [] e.op = "LogA" -> e.l \in Live(s)          \* a call through entry point e.k, severity e.a, message class e.mc, arguments e.args
       [] e.op = "LogF" -> e.l \in Live(s)          \* a record of severity e.a under fault assignment FailSets[e.b]
       [] OTHER -> FALSE
+
+\* does RegisterLevel accept the call?  Not for a value in use (built-in or registered), not for
+\* a title in use (the driver's clash calls carry the title of a built-in level)
+RegOK(s, e) == LET c == RegCalls[e.a] IN ~c.clash /\ c.v \notin s.regd /\ c.v \notin Builtin
 
 RECURSIVE Step(_, _)
 Step(s, e) ==
@@ -230,6 +241,16 @@ Step(s, e) ==
            IF e.k = "SetSkip" THEN {[s EXCEPT !.cfg[s.deflog].skip = e.a]}
            ELSE Step(s, [op |-> "With", l |-> s.deflog, k |-> "Skip", a |-> e.a, b |-> 0])
       [] e.op = "DbgMode" -> {[s EXCEPT !.dbg = (e.a = 1)]}
+      [] e.op = "VrbMode" -> {[s EXCEPT !.vrb = (e.a = 1)]}
+      \* a refused registration (value in use, or title in use) changes nothing at all; an accepted
+      \* one changes the entries of its own value only
+      [] e.op = "Register" ->
+           LET c == RegCalls[e.a] IN
+           IF RegOK(s, e)
+           THEN {[s EXCEPT !.regd = @ \cup {c.v},
+                           !.treat = IF c.t >= 0 THEN (c.v :> c.t) @@ s.treat ELSE s.treat,
+                           !.errdev = IF c.e THEN @ \cup {c.v} ELSE @]}
+           ELSE {s}
       [] e.op = "SetAttrsR" -> {[s EXCEPT !.attrsR = (e.a = 1),
                                            !.flags = IF e.a = 1 THEN s.flags \cup {"attrsR"} ELSE s.flags \ {"attrsR"}]}
       [] e.op = "Flags" ->
@@ -417,6 +438,8 @@ LogF(l, r, fi) == "LogF" \in Acts /\ Do("LogF", l, "", r, fi)
 LogM(l, ci, ai) == "LogM" \in Acts /\ Do("LogM", l, "", ci, ai)
 SetAttrsR(b) == "SetAttrsR" \in Acts /\ b \in {0, 1} /\ Do("SetAttrsR", 0, "", b, 0)
 DbgMode(b) == "DbgMode" \in Acts /\ b \in {0, 1} /\ Do("DbgMode", 0, "", b, 0)
+VrbMode(b) == "VrbMode" \in Acts /\ b \in {0, 1} /\ Do("VrbMode", 0, "", b, 0)
+Register(a) == "Register" \in Acts /\ a \in DOMAIN RegCalls /\ Do("Register", 0, "", a, 0)
 PkgSkip(k, a) ==
     /\ "PkgSkip" \in Acts /\ "Skip" \in DOMAIN SetterArgs /\ <<a, 0>> \in SetterArgs["Skip"]
     /\ (k = "WithSkip" => st.n < MaxLoggers)
@@ -454,6 +477,8 @@ Next ==
     \/ \E l \in 1..MaxLoggers, ci \in DOMAIN CtxVals, ai \in DOMAIN CallArgs : LogM(l, ci, ai)
     \/ \E b \in {0, 1} : SetAttrsR(b)
     \/ \E b \in {0, 1} : DbgMode(b)
+    \/ \E b \in {0, 1} : VrbMode(b)
+    \/ \E a \in DOMAIN RegCalls : Register(a)
     \/ \E k \in {"SetSkip", "WithSkip"}, a \in ArgA : PkgSkip(k, a)
     \/ \E k \in FlagKinds, a \in 0..Len(FlagSets), b \in 0..Len(FlagSets) : Flags(k, a, b)
     \/ \E k \in PkgLevelKinds, a \in ArgA \cup 0..MaxSaved : PkgLevel(k, a)
@@ -487,6 +512,16 @@ Isolation ==
     [][\A l \in Live(st) :
           st'.cfg[l] # st.cfg[l] =>
              \A m \in Live(st) \ {l} : st'.cfg[m] = st.cfg[m]]_st
+
+\* the level registry only grows, a registration concerns one value, the built-in levels keep
+\* their factory entries for ever, and no registration touches a logger
+RegistryLocal ==
+    [][/\ st.regd \subseteq st'.regd
+       /\ \A v \in DOMAIN st.treat : v \in DOMAIN st'.treat /\ st'.treat[v] = st.treat[v]
+       /\ st.errdev \subseteq st'.errdev
+       /\ Cardinality((DOMAIN st'.treat \ DOMAIN st.treat) \cup (st'.errdev \ st.errdev) \cup (st'.regd \ st.regd)) <= 1
+       /\ (st'.regd # st.regd \/ st'.treat # st.treat \/ st'.errdev # st.errdev) => (st'.cfg = st.cfg /\ st'.n = st.n)
+       /\ (DOMAIN st'.treat \ DOMAIN st.treat) \cap Builtin = {} /\ (st'.errdev \ st.errdev) \cap Builtin = {}]_st
 
 \* loggers are never destroyed and never re-parented or renamed
 TreeMonotone ==
